@@ -341,6 +341,31 @@ int main(int argc, char **argv)
 			}
 		}
 	}
+	/* E. (once per shard) answers to A / CNAME questions whose record is a plain A record with RDLENGTH 0..6 and the
+	   datagram ending right after the bytes RDLENGTH announces - or earlier */
+	for (r = 0; r < 64; r++) {
+		size_t nn, q;
+		int rdl, cut, qt;
+		if (r % nsh != shard % nsh) continue;
+		kindname = "answer-A-record-short";
+		qt = (r & 1) ? T_A_ : T_CNAME_;
+		nn = mk_query(m, "paaaaaaa.t.example.com", (unsigned short)qt, 0);
+		m[2] = 0x84; m[3] = 0; m[7] = 1;	/* response, one answer */
+		q = nn;
+		for (rdl = 0; rdl <= 6; rdl++) {
+			for (cut = 0; cut <= rdl; cut++) {
+				size_t e = q;
+				int k2;
+				m[e++] = 0xC0; m[e++] = 0x0C;
+				m[e++] = 0; m[e++] = 1;	/* type A */
+				m[e++] = 0; m[e++] = 1;
+				m[e++] = 0; m[e++] = 0; m[e++] = 0; m[e++] = 0;
+				m[e++] = 0; m[e++] = (unsigned char)rdl;
+				for (k2 = 0; k2 < rdl - cut; k2++) m[e++] = (unsigned char)(0xE0 + k2);
+				check(QR_ANSWER, m, e, prev, prevlen, 4096);
+			}
+		}
+	}
 	DRV_E(evals * NRES);
 	DRV_X("datagrams", evals);
 	DRV_X("datagrams_with_differing_decodes", differing);
